@@ -17,15 +17,29 @@ def trace_edit_rejects_corruption():
     byid = {r["id"]: r for r in recs2}
     byid[v1["id"]]["post"]["bonds"] = byid[v1["id"]]["post"]["bonds"][1:]          # drop a bond from the post state
     byid[v2["id"]]["out"] = "raise"                                                  # lie about the outcome
+    # a query answer that disagrees with the state (active_atoms / role_bonds / bonded_to)
+    qs = [r for r in recs if r["op"]["name"] in ("active_atoms", "role_bonds", "bonded_to") and r["out"] == "ans"
+          and r["ans"].get("t") == "ids"]
+    v3 = None
+    for r in qs:
+        if r["id"] not in (v1["id"], v2["id"]):
+            v3 = r
+            a3 = byid[v3["id"]]["ans"]
+            a3["s"] = a3["s"][1:] if a3["s"] else [424242]        # drop an atom, or invent one
+            break
     ok, bad, _ = drive.validate(recs2)
     ok0, bad0, _ = drive.validate(recs)
     problems = []
+    if v3 is None:
+        problems.append("no query record with a set answer to corrupt")
+    elif v3["id"] not in bad or bad[v3["id"]]["answer"]:
+        problems.append("shortened query answer not rejected by clause answer")
     if v1["id"] not in bad or bad[v1["id"]]["post"]:
         problems.append("dropped bond not rejected by clause post")
     if v2["id"] not in bad or bad[v2["id"]]["outcome"]:
         problems.append("wrong outcome class not rejected by clause outcome")
     # uncorrupted records keep their verdict
-    if set(bad) - {v1["id"], v2["id"]} != set(bad0):
+    if set(bad) - {v1["id"], v2["id"]} - ({v3["id"]} if v3 else set()) != set(bad0):
         problems.append("corruption changed the verdict of other records")
     return problems
 
